@@ -5,7 +5,7 @@ import LdkModel.Model.ChainSync
         client <tip> <cached ids…> | best <id> | clientinit | hidden <ids…> |
         sched <k:kind…> (what the source answers to request k: t|p = Err, hash:<id> = another block, pow = PoW fails,
           height / work = claimed height / chainwork off by one, merkle = full block with a wrong merkle root) |
-        poll <fingerprint> | init <id:height:p1,p2,-,…>…
+        poll <fingerprint> (answer ends in `| cache <ids of the header cache afterwards>`) | init <id:height:p1,p2,-,…>…
    The source is an `Adv` (raw answers) run through the translated Validate layer (`Adv.toSource`). -/
 namespace Ldk.Driver
 open Ldk Ldk.ChainSync
@@ -80,6 +80,11 @@ def parseLocator (s : String) : Locator :=
 
 def sortNats (l : List Nat) : List Nat := (l.toArray.qsort (· < ·)).toList
 
+/-- the SpvClient's header cache after the poll: sorted ids, or count + checksum when there are many (as the harness) -/
+def showCache (c : Cache) : String :=
+  let ids := sortNats (c.map (·.hash))
+  if ids.length ≤ 48 then " ".intercalate (ids.map toString) else s!"n{ids.length} s{ids.foldl (· + ·) 0}"
+
 def c20 : Drv where
   σ := C20State
   init := {}
@@ -108,7 +113,12 @@ def c20 : Drv where
           | .ok (.common, b) => s!"common - {if b then 1 else 0}"
           | .ok (.better t, b) => s!"better {t.hash} {if b then 1 else 0}"
           | .ok (.worse t, b) => s!"worse {t.hash} {if b then 1 else 0}"
-        ({ st with client := some o.client }, (head ++ s!" r{o.reqs} | " ++ showNotifs o.notifs).trimAscii.toString)
+        ({ st with client := some o.client },
+          (head ++ s!" r{o.reqs} | " ++ showNotifs o.notifs ++ " | cache " ++ showCache o.client.cache).trimAscii.toString)
+    | ["tuple"] =>
+      -- delivery order of one connect and one disconnect notification through the tuple adapter
+      let ord := fun (n : Notif) => " ".intercalate ((tupleDeliver [n]).map (fun d => toString d.1))
+      (st, s!"C {ord (.connected 0 0)} D {ord (.disconnected 0 0)}")
     | "init" :: locs =>
       let o := synchronizeListeners (c20Source st) (locs.map parseLocator)
       let head := match o.result with
